@@ -571,7 +571,13 @@ func c15(c *ctx) {
 			call(fmt.Sprintf("badreqline/%d/%s", li, e.name), "request", e.name, e.f, []byte(l+"\r\nHost: h\r\n\r\n"), "badrequestline", false, false, 0)
 		}
 	}
-	for li, l := range []string{"", ",", ";", "=", "a;", "a;b", "a;b=", "a;b=\"", "a;b=\"c", "a;b=c;", "a,,", ",a", "a; b; b", "permessage-deflate;", "permessage-deflate; client_max_window_bits=;", "\"", "a b", "a;b=c d", strings.Repeat("a;", 3000)} {
+	badOpts := []string{"", ",", ";", "=", "a;", "a;b", "a;b=", "a;b=\"", "a;b=\"c", "a;b=c;", "a,,", ",a", "a; b; b", "permessage-deflate;", "permessage-deflate; client_max_window_bits=;", "\"", "a b", "a;b=c d", strings.Repeat("a;", 3000)}
+	// every small / boundary number as a window size, for both parameters, alone and combined
+	for _, v := range []string{"0", "1", "2", "3", "4", "5", "6", "7", "8", "9", "10", "14", "15", "16", "17", "31", "32", "99", "127", "128", "255", "256", "257", "65535", "65536", "-1", "+8", "08", "8.0", "0x8", "4294967304", "18446744073709551624"} {
+		badOpts = append(badOpts, "permessage-deflate; client_max_window_bits="+v, "permessage-deflate; server_max_window_bits="+v,
+			"permessage-deflate; server_max_window_bits="+v+"; client_max_window_bits="+v, "permessage-deflate; client_no_context_takeover="+v)
+	}
+	for li, l := range badOpts {
 		for _, e := range entries["options"] {
 			call(fmt.Sprintf("badopt/%d/%s", li, e.name), "options", e.name, e.f, []byte(l), "badoptions", false, false, 0)
 		}
